@@ -148,6 +148,13 @@ def c12_cases(tier):
         e = rnd.randrange(117, 143)          # 2^-10 .. 2^15
         bits = (e << 23) | rnd.randrange(1 << 23)
         emit('rate-%08x' % bits, base + 'fshape 2 0 1 2 1 7 0 0 5\nfrawrate %d\n' % bits)
+    # scale factor words of a file WITHOUT frames (nothing is scaled): sign x exponent class x mantissa class, and plain integers
+    for sign in (0, 1):
+        for e in (0, 1, 2, 126, 127, 128, 254, 255):
+            for m in (0, 1, 0x400000, 0x7FFFFF):
+                emit('scale-%d-%d-%x' % (sign, e, m), base + 'fshape 0 0 1 0 1 7 0 0 5\nfrawscale %d\n' % ((sign << 31) | (e << 23) | m))
+    for v in (1, 2, 0x7FFF, 0x8000, 0xFFFF, 0x10000):
+        emit('scale-int-%x' % v, base + 'fshape 2 0 1 0 1 7 0 0 5 2\nfrawscale %d\n' % v)      # declared points, no frame yet (template file)
     for n in range(19):
         emit('nevents-%d' % n, base + shape1 + 'fhdr 10 0 0 12345 %d %d 0\n' % (n, 100 + n))
     for k in range(20 if tier == 'quick' else 300):
